@@ -420,6 +420,8 @@ class Executor:
         self.no_merge = set()
         self.notes = set()  # e.g. float ops used
         self.band_terms = {}
+        self.shl_terms = {}
+        self._keep = []
 
     # ---- path management
     def reset_path(self, script):
@@ -1526,9 +1528,21 @@ class Executor:
                     return wrap(bor(x, int(b)))
                 if isinstance(a, int) and a >= 0:
                     return wrap(bor(y, int(a)))
+                # (hi << k) | lo : equals hi*2**k + lo when 0 <= lo < 2**k; otherwise left uninterpreted (so a
+                # violated side condition shows up as a refutable obligation, not as a wrong identity)
+                for hi_t, lo_t in ((x, y), (y, x)):
+                    k = self.shl_terms.get(hi_t.get_id())
+                    if k is not None:
+                        bitor = z3.Function("py_bitor", Int, Int, Int)
+                        r = bitor(hi_t, lo_t)
+                        self.hints.append(z3.Implies(z3.And(lo_t >= 0, lo_t < 2 ** k, hi_t >= 0), r == hi_t + lo_t))
+                        return wrap(r)
                 raise Unsupported("symbolic | symbolic")
             if isinstance(op, ast.LShift) and isinstance(b, int):
-                return wrap(x * (2 ** b))
+                r = x * (2 ** b)
+                self.shl_terms[r.get_id()] = b
+                self._keep.append(r)
+                return wrap(r)
             if isinstance(op, ast.RShift) and isinstance(b, int):
                 return wrap(x / z3.IntVal(2 ** b))
         raise Unsupported(f"binop {type(op).__name__} on {type(a).__name__},{type(b).__name__} at L{line}")
